@@ -215,7 +215,21 @@ static void partialCopy(vf::Src &s, vf::Ctx &c)
     std::vector<Desc> pool;
     int np = s.in(2, 6);
     for (int i = 0; i < np; ++i)
-        pool.push_back(genSpace(s, o, 1));
+    {
+        if (s.chance(100))
+        {
+            // value-less atomic subspaces are frequent on purpose: compounds made only of them expose no real values at all
+            Desc d;
+            d.kind = DISCRETE;
+            d.depth = 1;
+            d.dlo = s.in(-3, 3);
+            d.dhi = d.dlo + s.in(1, 9);
+            d.space = std::make_shared<ob::DiscreteStateSpace>(d.dlo, d.dhi);
+            pool.push_back(d);
+        }
+        else
+            pool.push_back(genSpace(s, o, 1));
+    }
     auto build = [&](std::vector<int> &members, bool &nested, int &n1, int &n2) -> Desc
     {
         Desc d;
@@ -307,6 +321,39 @@ static void partialCopy(vf::Src &s, vf::Ctx &c)
     ob::AdvancedStateCopyOperation want = common == 0 ? ob::NO_DATA_COPIED : common == srcImgs.size() ? ob::ALL_DATA_COPIED : ob::SOME_DATA_COPIED;
     VCHECK(c, res == want, "C09/copyStateData-return", "copyStateData returned %d, expected %d (%zu of %zu source subspaces have a home)", (int)res, (int)want, common,
            srcImgs.size());
+    // the name-driven forms: getCommonSubspaces() lists exactly the shared subspaces, and copying that list transfers them
+    {
+        std::set<std::string> expectNames;
+        for (auto &kv : after)
+            if (srcImgs.count(kv.first))
+                expectNames.insert(kv.first);
+        std::vector<std::string> listed;
+        B.space->getCommonSubspaces(A.space, listed);
+        std::set<std::string> got(listed.begin(), listed.end());
+        VCHECK(c, got == expectNames, "C09/getCommonSubspaces", "getCommonSubspaces() lists %zu subspaces, %zu are shared (%s <- %s)", got.size(), expectNames.size(),
+               B.name().c_str(), A.name().c_str());
+        ob::State *dst2 = hb.alloc();
+        genStateInto(s, B, dst2);
+        auto before2 = leafImages(B, dst2);
+        std::vector<std::string> names(expectNames.begin(), expectNames.end());
+        bool extra = s.flag();
+        if (extra)
+            names.push_back("no-such-subspace");
+        ob::AdvancedStateCopyOperation r2 = ob::copyStateData(B.space, dst2, A.space, src, names);
+        auto after2 = leafImages(B, dst2);
+        for (auto &kv : after2)
+        {
+            auto it = srcImgs.find(kv.first);
+            if (it != srcImgs.end())
+                VCHECK(c, kv.second == it->second, "C09/copyStateData-named-common", "named copy did not transfer the listed common subspace %s", kv.first.c_str());
+            else
+                VCHECK(c, kv.second == before2[kv.first], "C09/copyStateData-named-untouched", "named copy modified subspace %s, which is not in the source", kv.first.c_str());
+        }
+        size_t copied = expectNames.size();
+        ob::AdvancedStateCopyOperation want2 = copied == names.size() ? ob::ALL_DATA_COPIED : copied > 0 ? ob::SOME_DATA_COPIED : ob::NO_DATA_COPIED;
+        VCHECK(c, r2 == want2, "C09/copyStateData-named-return", "named copyStateData returned %d, expected %d (%zu of %zu listed names exist on both sides)", (int)r2, (int)want2,
+               copied, names.size());
+    }
     c.count("partial-copy");
     c.count(common == 0 ? "partial-copy:none" : common == srcImgs.size() ? "partial-copy:all" : "partial-copy:some");
     c.nontrivial = common > 0 && common < srcImgs.size();
